@@ -90,6 +90,11 @@ func main() {
 				b++
 			}
 		}
+		if strings.HasPrefix(n, "dc-interior/") {
+			// the dual-contouring stages spawn up to 25 threads: delay-bounded like the C12 scenarios of the same code
+			jobs = append(jobs, schedrun.Job{Scenario: n, Bound: bound, MaxExecs: 3000000, Delay: true})
+			continue
+		}
 		jobs = append(jobs, schedrun.Job{Scenario: n, Bound: b, MaxExecs: 3000000})
 	}
 	results := schedrun.Explore(r, jobs)
